@@ -497,6 +497,17 @@ type c38Value struct {
 // "unquoted-nonstring": strings made only of characters in [a-zA-z0-9] (that range includes
 // [ ] ^ _ and the backtick) which a YAML reader does not read as a string when left unquoted.
 var c38UnquotedNonStrings = []string{"20240131", "true", "[secret]"}
+// "number-like": purely alphanumeric strings that YAML 1.1/1.2 readers (yaml.v3) resolve to a
+// number although they are not plain decimal integers.
+var c38NumberLikeStrings = []string{"0x1f", "1e3", "0o17", "0b1011", "12E5"}
+
+// "special-scalar": other texts with a non-string meaning in YAML (they contain punctuation, so a
+// writer that quotes everything non-alphanumeric gets them right).
+var c38SpecialScalarStrings = []string{".5", "1_000", "+1", ".inf", ".nan", "~", "-0x1f", "1.5e3"}
+
+// an API key of the classic format ([a-f0-9]{32}) that is also a YAML float
+const c38NumberLikeAPIKey = "12345678901234567890123456789e12"
+
 var c38PunctStrings = []string{"se-cr.et/1:x", "p@ss: w#rd", "it's \"q\""}
 
 func c38Alnum(rng *verifkit.Rand, n int) string {
@@ -698,15 +709,19 @@ func c38ValuesFor(rng *verifkit.Rand, s c38Setting, meta *config.Metadata, extra
 		var kept []c38Value
 		for _, v := range out {
 			switch v.Class {
-			case "punct", "unquoted-nonstring", "needs-quoting":
+			case "punct", "unquoted-nonstring", "needs-quoting", "number-like", "special-scalar":
 				hostile[v.Class] = append(hostile[v.Class], v)
 			default:
 				kept = append(kept, v)
 			}
 		}
-		for _, c := range []string{"punct", "unquoted-nonstring", "needs-quoting"} {
+		for _, c := range []string{"punct", "unquoted-nonstring", "needs-quoting", "number-like", "special-scalar"} {
 			if l := hostile[c]; len(l) > 0 {
-				kept = append(kept, l[rng.Intn(len(l))])
+				i := rng.Intn(len(l))
+				kept = append(kept, l[i])
+				if c == "number-like" && len(l) > 1 { // two distinct members: the class is the widest
+					kept = append(kept, l[(i+1+rng.Intn(len(l)-1))%len(l)])
+				}
 			}
 		}
 		out = kept
@@ -760,6 +775,7 @@ func c38ValuesFor(rng *verifkit.Rand, s c38Setting, meta *config.Metadata, extra
 			for i := 0; i < 1+extra; i++ {
 				add("plain", c38GenAPIKey(rng))
 			}
+			add("number-like", c38NumberLikeAPIKey)
 		case "alnum":
 			for i := 0; i < 1+extra; i++ {
 				add("plain", c38Alnum(rng, rng.Range(4, 12)))
@@ -773,6 +789,12 @@ func c38ValuesFor(rng *verifkit.Rand, s c38Setting, meta *config.Metadata, extra
 			}
 			for _, v := range c38UnquotedNonStrings {
 				add("unquoted-nonstring", v)
+			}
+			for _, v := range c38NumberLikeStrings {
+				add("number-like", v)
+			}
+			for _, v := range c38SpecialScalarStrings {
+				add("special-scalar", v)
 			}
 		}
 	case c38StrArr:
@@ -800,6 +822,10 @@ func c38ValuesFor(rng *verifkit.Rand, s c38Setting, meta *config.Metadata, extra
 			add("needs-quoting", []string{"app.#hash"})
 			add("needs-quoting", []string{"*wild"})
 			add("needs-quoting", []string{"k: v"})
+			add("number-like", []string{"0x1f", "trace.span_id", "1e3"})
+			add("number-like", []string{"0o17", "0b1011", "12E5"})
+			add("special-scalar", []string{".5", "1_000", "+1"})
+			add("special-scalar", []string{".inf", ".nan", "~"})
 		}
 	case c38APIKeyList:
 		add("star", []string{"*"})
@@ -812,6 +838,7 @@ func c38ValuesFor(rng *verifkit.Rand, s c38Setting, meta *config.Metadata, extra
 			add("keys", l)
 			add("keys+star", append(append([]string{}, l...), "*"))
 		}
+		add("number-like", []string{c38NumberLikeAPIKey})
 	case c38Map:
 		add("map", map[string]string{"ClusterName": "MyCluster", "environment": "production"})
 		for i := 0; i < extra; i++ {
@@ -1138,7 +1165,8 @@ func TestVerif_C38(t *testing.T) {
 	defer run.Finish()
 	run.Rule("CONFIG sweep: every documented v1 setting alone x every value class (fixed hostile representatives + PRNG-drawn members) x TOML/YAML/JSON; " +
 		"combos: 2..all settings with PRNG-drawn values in one PRNG-chosen format. Non-trivial = the v1 value differs from the v2 default of its successor; " +
-		"distinct = distinct (setting,class,format) resp. distinct setting sets. " + c38RulesRuleText)
+		"distinct = distinct (setting,class,format) resp. distinct setting sets. " + c38RulesRuleText +
+		" HELM: values files with a v1 config section (case 0/1: every boolean setting explicitly false/true, then PRNG-chosen combos) and a v1 rules section through the real ConvertHelm; same oracle on the converted sections")
 	// ConvertRules and the v2 loader print to stdout; keep the log readable
 	if devnull, err := os.OpenFile(os.DevNull, os.O_WRONLY, 0); err == nil {
 		old := os.Stdout
@@ -1147,6 +1175,7 @@ func TestVerif_C38(t *testing.T) {
 	}
 	c38ConfigPart(t, run)
 	c38RulesPart(t, run)
+	c38HelmPart(t, run)
 }
 
 func c38ConfigPart(t *testing.T, run *verifkit.Run) {
